@@ -41,7 +41,7 @@ func c09Opts(i int) gen.PipeOpts {
 
 func checkC09(c *run.Ctx) {
 	c09Witnesses(c)
-	n := c.N(3000, 100000)
+	n := c.N(10000, 300000)
 	reps := c.N(6, 10)
 	c.Parallel("doc", n, func(i int, r *rand.Rand) {
 		d, err := gen.Pipeline(r, c09Opts(i))
